@@ -414,3 +414,38 @@ def build_session(decls, constraints, keys=None):
             if k:
                 s.add_answer_key(vs[i])
     return s
+
+
+def alpha_canon(prog_tree, base, extra=None):
+    """Canonical form of a program fragment UP TO A RENAMING OF ITS AUXILIARY VARIABLES (ids >= base): auxiliaries are renamed in
+    order of first occurrence while walking the constraints in emission order (then unused ones in declaration order), each new
+    name carrying its declaration; constraints are then sorted.  Two fragments with equal alpha-canonical forms are the same program
+    up to a bijective renaming of hidden variables that preserves domains -- which changes nothing for realizability.
+    `extra` (e.g. the list of returned variables) is renamed alongside."""
+    from .core import sx
+    decls, cs = prog_tree[1], prog_tree[2:]
+    ren = {}
+
+    def is_aux(a):
+        return isinstance(a, str) and len(a) > 1 and a[0] in "bi" and a[1:].isdigit() and int(a[1:]) >= base
+
+    def name(a):
+        if a not in ren:
+            k = int(a[1:]) - base
+            d = decls[k] if 0 <= k < len(decls) else "?"
+            ren[a] = "%s%d:%s" % (a[0].upper(), len(ren), sx(d))
+        return ren[a]
+
+    def walk(t):
+        if isinstance(t, list):
+            return [walk(x) for x in t]
+        return name(t) if is_aux(t) else t
+    cs2 = [walk(c) for c in cs]
+    ex2 = walk(extra) if extra is not None else None
+    unused = []
+    for k, d in enumerate(decls):
+        for pre in ("b", "i"):
+            a = "%s%d" % (pre, base + k)
+            if ((d == "b") == (pre == "b")) and a not in ren:
+                unused.append(sx(d))
+    return sx(["prog-alpha", sorted(sx(c) for c in cs2), sorted(unused), ex2])
